@@ -5,6 +5,7 @@
   `cdftGuard` of `Model/Debiasers.lean`) — the driver reports `undef` exactly when they fail.
 -/
 import IbicusModel.Lemmas.C04Isimip
+import IbicusModel.Model.Grid
 
 namespace Lemmas.C04
 open Model.Stats Model.Family Model.Debiasers Model.Skeleton Lemmas.Stats Lemmas.StatsAffine Lemmas.Family
@@ -105,5 +106,56 @@ def cdftWin (d : DeltaShift) (em : EcdfMethod) (im : IecdfMethod) (yrs : Option 
       | none => .ok (cdftMapping d em im o h x)
       | some (L, S, years) => collapse (cdftWindowYears d em im L S (take years ix) o h x)
     else .error "undef"
+
+/-- LinearScaling / DeltaChange, multiplicative (pure rescalings only) -/
+def lsMultWin : WinFn Rat := guardedWin (fun o h _ => decide (lsGuard .multiplicative o h)) (linearScaling .multiplicative)
+def dcMultWin : WinFn Rat := guardedWin (fun _ h x => decide (dcGuard .multiplicative h x)) (deltaChange .multiplicative)
+
+theorem mean_scale_ne_zero {a : Rat} (ha : a ≠ 0) {h : List Rat} (hh : h ≠ []) : mean (affine a 0 h) ≠ 0 ↔ mean h ≠ 0 := by
+  rw [mean_map_affine a 0 hh, add_zero]
+  constructor
+  · intro h1 h0; exact h1 (by rw [h0, mul_zero])
+  · intro h1; exact mul_ne_zero ha h1
+
+theorem lsGuard_mult_scale {a : Rat} (ha : a ≠ 0) (o h : List Rat) :
+    lsGuard .multiplicative (affine a 0 o) (affine a 0 h) ↔ lsGuard .multiplicative o h := by
+  unfold lsGuard
+  simp only [affine_ne_nil_iff]
+  constructor
+  · rintro ⟨h1, h2, h3⟩; exact ⟨h1, h2, fun hm => (mean_scale_ne_zero ha h2).mp (h3 hm)⟩
+  · rintro ⟨h1, h2, h3⟩; exact ⟨h1, h2, fun hm => (mean_scale_ne_zero ha h2).mpr (h3 hm)⟩
+
+theorem dcGuard_mult_scale {a : Rat} (ha : a ≠ 0) (h x : List Rat) :
+    dcGuard .multiplicative (affine a 0 h) (affine a 0 x) ↔ dcGuard .multiplicative h x := by
+  unfold dcGuard
+  simp only [affine_ne_nil_iff]
+  constructor
+  · rintro ⟨h1, h2, h3⟩; exact ⟨h1, h2, fun hm => (mean_scale_ne_zero ha h1).mp (h3 hm)⟩
+  · rintro ⟨h1, h2, h3⟩; exact ⟨h1, h2, fun hm => (mean_scale_ne_zero ha h1).mpr (h3 hm)⟩
+
+/-- `apply_location` of a running-window debiaser as a function of the three series at one location (a `Grid.LocFn`):
+    the assembled buffer, with a never-written step reported as the error `unassigned` -/
+def locRW (win : WinFn Rat) (L S : Int) (dO dH dF : List Int) : Model.Grid.LocFn Rat String :=
+  fun o h x => collapse (applyLocationRW win L S dO dH dF o h x)
+
+def locDC (win : WinFn Rat) (L S : Int) (dO dH dF : List Int) : Model.Grid.LocFn Rat String :=
+  fun o h x => collapse (applyLocationDC win L S dO dH dF o h x)
+
+/-- three-dimensional arrays change unit element-wise -/
+def affine3 (a b : Rat) (x : Model.Grid.Arr3 Rat) : Model.Grid.Arr3 Rat := x.map (fun p => p.map (affine a b))
+
+theorem slice_affine3 (a b : Rat) (x : Model.Grid.Arr3 Rat) (i j : Nat) :
+    Model.Grid.slice (affine3 a b x) i j = affine a b (Model.Grid.slice x i j) := by
+  unfold Model.Grid.slice affine3 affine
+  rw [List.filterMap_map, List.map_filterMap]
+  congr 1
+  funext p
+  simp only [Function.comp, List.getElem?_map]
+  cases p[i]? with
+  | none => rfl
+  | some r => simp [Option.bind, List.getElem?_map]
+
+theorem affine3_length (a b : Rat) (x : Model.Grid.Arr3 Rat) : (affine3 a b x).length = x.length := by
+  unfold affine3; rw [List.length_map]
 
 end Lemmas.C04
